@@ -212,6 +212,21 @@ func (s *clientTxnSys) Do(a map[string]any, wait func()) ([]Obs, error) {
 			s.rets = append(s.rets, o)
 			s.retMu.Unlock()
 		}()
+	case "StartIgnore": // fire and forget: the call returns at once, without a result
+		id := s.id(t)
+		msg := stun.MustBuild(txidSetter(id), stun.BindingRequest)
+		s.started[t] = true
+		_, err := s.cl.PerformTransaction(msg, s.saddr, true)
+		o := Obs{"k": "ret", "t": t, "res": "ignored"}
+		if err != nil {
+			o["res"] = "err:" + err.Error()
+		}
+		s.retMu.Lock()
+		s.rets = append(s.rets, o)
+		s.retMu.Unlock()
+	case "ResponseOther": // the same response, from another transport address than the request went to
+		m := stun.MustBuild(txidSetter(s.id(t)), stun.BindingSuccess, &stun.XORMappedAddress{IP: net.IPv4(10, 0, 0, 11), Port: 40001})
+		_, _ = s.decoy.WriteTo(m.Raw, s.cconn.addr)
 	case "Response":
 		m := stun.MustBuild(txidSetter(s.id(t)), stun.BindingSuccess, &stun.XORMappedAddress{IP: net.IPv4(10, 0, 0, 11), Port: 40001})
 		_, _ = s.server.WriteTo(m.Raw, s.cconn.addr)
